@@ -1,13 +1,82 @@
 /-
 Specification verdicts on concrete implementation results: for a protocol case and the result the
 real code produced, does the property's statement hold?  Uses only Spec/ definitions (never Model/).
-Answers: "ok", "n/a" (the property says nothing about this case) or "VIOLATED:<reason>".
+Answers: "ok", "n/a" (the property says nothing about this case), "VIOLATED:<reason>", or
+"VIOLATED-KNOWN:<finding id>:<reason>" for a deviation inside an exactly characterised known family.
 -/
 import Precis.Proto
 import Precis.Spec.C18
 import Precis.Spec.C13
+import Precis.Spec.Rules
+import Precis.Spec.Rfc5893
+import Precis.Spec.Rfc5892
+import Precis.Spec.Rfc8264
 namespace Precis.Spec
-open Precis.Proto
+open Precis.Proto Precis
+
+def want (impl expected : String) : String :=
+  if impl == expected then "ok" else "VIOLATED:expected " ++ expected
+
+def ruleOfName (n : String) : Option Rule :=
+  match n with
+  | "zwnj" => some .zwnj | "zwj" => some .zwj | "middledot" => some .middleDot
+  | "keraia" => some .keraia | "hebrew" => some .hebrew | "katakana" => some .katakana
+  | "arabic" => some .arabic | "extarabic" => some .extArabic | _ => none
+
+def Rule.name : Rule → String
+  | .zwnj => "zwnj" | .zwj => "zwj" | .middleDot => "middledot" | .keraia => "keraia"
+  | .hebrew => "hebrew" | .katakana => "katakana" | .arabic => "arabic" | .extArabic => "extarabic"
+
+/-- derived property per the IANA registry (U+0000..U+10FFFF), DISALLOWED above -/
+def dp63 (identifier : Bool) (cp : Nat) : DPV :=
+  match Iana.expect identifier (iana63 cp) with
+  | some v => v
+  | none => .disallowed
+
+def parseDpv (s : String) : DPV :=
+  match s with
+  | "PValid" => .pValid | "SpecClassPval" => .specClassPval | "SpecClassDis" => .specClassDis
+  | "ContextJ" => .contextJ | "ContextO" => .contextO | "Disallowed" => .disallowed
+  | _ => .unassigned
+
+/-- C02: the outcomes the property permits for `allows` on `label` under the assignment `dp` -/
+def allowsVerdict (dp : Nat → DPV) (label : List Nat) (impl : String) : String := Id.run do
+  let mut i := 0
+  for c in label do
+    let v := dp c
+    let info := s!"({hex4 c},{i},{v.name})"
+    match v with
+    | .pValid | .specClassPval => pure ()
+    | .specClassDis | .disallowed | .unassigned => return want impl ("err:Bad" ++ info)
+    | .contextJ | .contextO =>
+      match ruleFor c with
+      | none => return want impl ("err:Missing" ++ info)
+      | some r =>
+        if cond r label i then pure ()
+        else if impl == "err:Bad" ++ info then return "ok"
+        else if impl == "err:Undefined" && needsOutside r label i then return "ok"
+        else return "VIOLATED:first offending code point is the contextual " ++ info
+    i := i + 1
+  return want impl "ok"
+
+def dirVerdict (s : List Nat) (impl : String) : String :=
+  let cs := s.map bidi16
+  let expected := match specDirectionality bidi16 s with
+    | .ok t => "ok:" ++ fmtStr t
+    | _ => "err:Invalid"
+  if impl == expected then "ok"
+  else if impl == "err:Invalid" && interiorNsm cs then
+    "VIOLATED-KNOWN:bidi-interior-nsm:RFC 5893 accepts this label (an NSM is followed by a non-NSM character)"
+  else "VIOLATED:expected " ++ expected
+
+def rulesVerdict (prof rule : String) (s : List Nat) (impl : String) : String :=
+  match prof, rule with
+  | "um", "width" | "up", "width" => want impl ("ok:" ++ fmtStr (specWidth s))
+  | "um", "case" | "nick", "case" => want impl ("ok:" ++ fmtStr (specCase s))
+  | "op", "addmap" => want impl ("ok:" ++ fmtStr (specOpaqueMap s))
+  | "nick", "addmap" => want impl ("ok:" ++ fmtStr (specSpaces s))
+  | "um", "dir" | "up", "dir" => dirVerdict s impl
+  | _, _ => "n/a"
 
 def verdict (case impl : String) : String :=
   let f := (case.splitOn "|").toArray
@@ -15,6 +84,33 @@ def verdict (case impl : String) : String :=
   match arg 0 with
   | "cmp" => C18.verdict (arg 1) (arg 2) impl
   | "stabilize" => C13.verdict (arg 1) (arg 2) impl
+  | "rules" => rulesVerdict (arg 1) (arg 2) (parseStr (arg 3)) impl
+  | "rule" =>
+    match ruleOfName (arg 1) with
+    | some r => ruleVerdict r (parseStr (arg 2)) (parseUsize (arg 3)) impl
+    | none => "n/a"
+  | "regrule" =>
+    let l := parseStr (arg 1)
+    let i := parseUsize (arg 2)
+    match l[i]? with
+    | none => want impl "none"
+    | some c =>
+      match ruleFor c with
+      | none => want impl "none"
+      | some r => ruleVerdict r l i impl
+  | "ctxrule" => want impl (match ruleFor (parseHex (arg 1)) with | some r => r.name | none => "none")
+  | "allows.id" => allowsVerdict (dp63 true) (parseStr (arg 1)) impl
+  | "allows.ff" => allowsVerdict (dp63 false) (parseStr (arg 1)) impl
+  | "allows.custom" =>
+    let dflt := parseDpv (arg 1)
+    let m : List (Nat × DPV) := ((arg 2).splitOn " ").filterMap (fun kv =>
+      match kv.splitOn "=" with
+      | [k, v] => some (parseHex k, parseDpv v)
+      | _ => none)
+    allowsVerdict (fun c => (m.lookup c).getD dflt) (parseStr (arg 3)) impl
+  | "cls.id" => want impl (dp63 true (parseHex (arg 1))).name
+  | "cls.ff" => want impl (dp63 false (parseHex (arg 1))).name
+  | "hasrtl" => want impl (toString ((parseStr (arg 1)).any (fun c => isRtlTrigger (bidi16 c))))
   | _ => "n/a"
 
 end Precis.Spec
